@@ -379,6 +379,84 @@ pub fn run(cx: &mut Ctx) {
             }
             conforming_case(c, Kind::Lz11, &toks, &data, "longest LZ11 forms", false);
         });
+        // flag groups made of 0..=8 four-byte-form references (the longest possible group is 33 bytes),
+        // three-byte forms and two-byte forms, at every position of the group
+        for long_refs in 0..=8usize {
+            for other in 0..3usize {
+                cx.case("lz11_group_shapes", |c| {
+                    c.sit("lz11_group_of_long_forms");
+                    let mut toks: Vec<Tok> = (0..8).map(|i| Tok::Lit(i as u8 * 3 + 1)).collect();
+                    let mut data: Vec<u8> = toks.iter().map(|t| if let Tok::Lit(b) = t { *b } else { 0 }).collect();
+                    for round in 0..3 {
+                        for slot in 0..8usize {
+                            let is_long = (slot + round) % 8 < long_refs;
+                            let t = if is_long {
+                                Tok::Ref(0x111 + slot * 37 + round, 1 + (slot * 5 + round) % data.len().min(4096))
+                            } else {
+                                match other {
+                                    0 => Tok::Lit((slot * 11 + round) as u8),
+                                    1 => Tok::Ref(3 + slot, 1 + slot % data.len().min(4096)),
+                                    _ => Tok::Ref(17 + slot * 30, 1 + (slot * 3) % data.len().min(4096)),
+                                }
+                            };
+                            match t {
+                                Tok::Lit(b) => data.push(b),
+                                Tok::Ref(len, disp) => {
+                                    for _ in 0..len {
+                                        let b = data[data.len() - disp];
+                                        data.push(b);
+                                    }
+                                }
+                            }
+                            toks.push(t);
+                        }
+                    }
+                    conforming_case(c, Kind::Lz11, &toks, &data, "flag groups with many four-byte-form references", long_refs == 8);
+                });
+            }
+        }
+        // decoded sizes beyond 2^16 / 2^20 / 2^21 with a reference straddling the power of two
+        if !cfg!(miri) {
+            for (kind, pow) in [(Kind::Lz10, 16u32), (Kind::Lz11, 16), (Kind::Lz10, 20), (Kind::Lz11, 20), (Kind::Lz11, 21), (Kind::Lz10, 21)] {
+                for variant in 0..3usize {
+                    cx.case("output_size_thresholds", |c| {
+                        c.sit("reference_straddles_output_offset_2^16_2^20_2^21");
+                        let mut rng = c.rng.clone();
+                        let edge = 1usize << pow;
+                        let maxlen = if kind == Kind::Lz10 { 18 } else { [272usize, 4096, 65808][variant] };
+                        let mut toks = vec![Tok::Lit(1), Tok::Lit(2), Tok::Lit(3), Tok::Lit(5)];
+                        let mut data = vec![1u8, 2, 3, 5];
+                        let end = edge + 3 * maxlen + rng.range(0, 50);
+                        while data.len() < end {
+                            let t = if rng.chance(1, 7) {
+                                Tok::Lit(rng.u8())
+                            } else {
+                                let room = end - data.len();
+                                let len = rng.range(3, maxlen).min(room.max(3));
+                                Tok::Ref(len, rng.range(1, data.len().min(4096)))
+                            };
+                            // make sure the reference in flight when the edge is reached really crosses it
+                            let t = match t {
+                                Tok::Lit(_) if data.len() + 1 >= edge && data.len() < edge => Tok::Ref(maxlen.min(18).max(3), 2),
+                                other => other,
+                            };
+                            match t {
+                                Tok::Lit(b) => data.push(b),
+                                Tok::Ref(len, disp) => {
+                                    for _ in 0..len {
+                                        let b = data[data.len() - disp];
+                                        data.push(b);
+                                    }
+                                }
+                            }
+                            toks.push(t);
+                        }
+                        c.rng = rng;
+                        conforming_case(c, kind, &toks, &data, "decoded size beyond a power of two", false);
+                    });
+                }
+            }
+        }
         cx.case("lz11_extreme_expansion", |c| {
             // 11 bytes of stream, 65810 bytes of output: legal
             let toks = vec![Tok::Lit(5), Tok::Lit(6), Tok::Ref(65808, 2)];
